@@ -133,15 +133,31 @@ func c04Oracle(x *hist.Exec) {
 var c04HSpec = &HSpec{ID: "C04",
 	Scenarios: func(tier string) []*hist.Scenario {
 		never := hist.Config{Threshold: hist.Big, Interval: hist.Big}
-		k, y := 3, 4
+		var out []*hist.Scenario
+		three := func(k, y int) {
+			out = append(out, &hist.Scenario{Name: fmt.Sprintf("c04/seq/N3K%dY%d+pushonly", k, y), N: 3, Init: []string{"init.a"}, Alphabet: []string{"a.push"}, K: k, Y: y, PushOnly: true, Cfg: never})
+		}
+		two := func(k, y int) {
+			out = append(out, &hist.Scenario{Name: fmt.Sprintf("c04/seq/N2K%dY%d+pushonly/two-kinds", k, y), N: 2, Init: []string{"init.a", "init.c"}, Alphabet: []string{"a.push", "c.inc1"}, K: k, Y: y, PushOnly: true, Cfg: never})
+		}
+		mix := func(late, k, y, d int) {
+			out = append(out, &hist.Scenario{Name: fmt.Sprintf("c04/seq/N2L%dK%dY%dD%d", late, k, y, d), N: 2, Late: late, Init: []string{"init.a"}, Alphabet: []string{"a.push"}, K: k, Y: y, D: d, Cfg: never})
+		}
+		// Smallest first (`vcheck countshape`): 5.5k, 5.9k, 7.3k, 14k | 22k, 26k, 30k, 64k, 92k, 166k, 197k
+		two(2, 3)
+		mix(1, 2, 2, 1)
+		three(2, 3)
+		mix(0, 2, 2, 2)
 		if tier == "thorough" {
-			k, y = 3, 5
+			three(3, 3)
+			two(3, 3)
+			two(2, 4)
+			mix(0, 2, 3, 2)
+			mix(1, 2, 2, 2)
+			two(3, 4)
+			three(3, 4)
 		}
-		return []*hist.Scenario{
-			{Name: fmt.Sprintf("c04/seq/N3K%dY%d+pushonly", k, y), N: 3, Init: []string{"init.a"}, Alphabet: []string{"a.push"}, K: k, Y: y, PushOnly: true, Cfg: never},
-			{Name: "c04/seq/N2L1K2Y3D2", N: 2, Late: 1, Init: []string{"init.a"}, Alphabet: []string{"a.push"}, K: 2, Y: 3, D: 2, Cfg: never},
-			{Name: "c04/seq/N2K3Y4+pushonly/two-kinds", N: 2, Init: []string{"init.a", "init.c"}, Alphabet: []string{"a.push", "c.inc1"}, K: 3, Y: 4, PushOnly: true, Cfg: never},
-		}
+		return out
 	},
 	Eval: func(r *hist.Runner, sc *hist.Scenario, h []hist.Event, res *Result) ([]hist.Violation, bool) {
 		r.Prepare = func(x *hist.Exec) { x.OnRPC = c04OnRPC(x) }
@@ -185,7 +201,7 @@ func init() {
 			"response checkpoints monotone and never beyond the head, followed by C01's convergence; evaluations = schedules + histories; non-trivial = schedules with a preemption / histories with concurrent edits",
 		Assume: []string{"memdb backend: CreateChangeInfos is one atomic transaction, so the compare-and-set race the push lock guards against in the MongoDB backend cannot occur here; the MongoDB path is out of reach offline",
 			"scheduling points: named-lock operations, storage calls, task start/end"},
-		QuickBudget: 150 * time.Second,
+		QuickBudget: 300 * time.Second,
 		Run:         c04Run,
 		Reproduce: func(f *Found) (bool, error) {
 			if f.Hist != nil {
